@@ -12,6 +12,7 @@ ties them to the hand-written transliteration.
 import TdModel.Lemmas.C30
 import TdModel.Lemmas.C30Conc
 import TdModel.Lemmas.C30Interp
+import TdModel.Lemmas.C30Mgr
 
 namespace TdModel.C30
 open TdModel
@@ -79,6 +80,42 @@ hand-written sequential model. -/
 theorem sequential_is_an_interleaving (s : St) (n : Notif) :
     stepI s n = ((aloneWith advI s n).1, (aloneWith advI s n).2.res) ∧ stepI s n = step s n :=
   ⟨rfl, stepI_eq s n⟩
+
+/-- Where notifications come from (`manager.Conn`): whatever any list of connection actions —
+connections created, sessions confirmed on them before or after their config is known, configs
+arriving — hands to the client is a plain list of notifications (`deliveries`), so every theorem
+above applies to the client driven through its connections. -/
+theorem managed_conns_are_a_notification_list (s : St) (cs : List MConn) (acts : List MAct) :
+    (mrun (s, cs) acts).1 = runI s (deliveries cs acts) :=
+  mrun_eq acts s cs
+
+/-- …and each of those notifications pairs a session (key, permanent key, salt) confirmed on ONE
+connection with THAT connection's config: the `ThisDC` its own server reported (CDN mode: the DC
+it was dialled to), and goes to the handler of that connection's mode. -/
+theorem conn_pairs_session_with_its_config (cs : List MConn) (a : MAct) (n : Notif)
+    (hn : n ∈ (mstep cs a).2) :
+    ∃ id c, cs[id]? = some c ∧ n.kind = (if c.cdn then .cdn else .regular) ∧
+      ((∃ e, a = .ev id e ∧ c.cfg = some n.cfgDC) ∨
+       (∃ sd, a = .init id sd ∧ n.cfgDC = (if c.cdn then c.dc else sd))) ∧
+      ∃ e, (e ∈ c.pending ∨ a = .ev id e) ∧ n.key = e.key ∧ n.permKey = e.perm ∧ n.salt = e.salt :=
+  mstep_delivery cs a n hn
+
+/-- Nothing is handed over before the connection's config is known (sessions are buffered), and
+the config's arrival hands over exactly the buffered sessions in arrival order. -/
+theorem conn_buffers_until_config (cs : List MConn) (id : Nat) (c : MConn) (e : SessEv) (sd : Int)
+    (hc : cs[id]? = some c) :
+    (c.cfg = none → (mstep cs (.ev id e)).2 = []) ∧
+      (mstep cs (.init id sd)).2 = c.pending.map (notifOf c (if c.cdn then c.dc else sd)) :=
+  ⟨fun h => (mstep_buffers cs id c e hc h).1, mstep_init cs id c sd hc⟩
+
+/-- The connection layer is the one in the source (regenerated, structurally classified statement
+lists of `Conn.OnSession`, `flushPendingSession` and both branches of `init`). -/
+theorem conn_layer_is_modelled :
+    Facts.C30.connOnSession = ["buffer", "wait-config", "flush"] ∧
+    Facts.C30.connFlush = ["lock", "copy", "read-cfg", "clear", "unlock", "deliver-each(cfg,s)"] ∧
+    Facts.C30.connInitCDN = ["cfg=this-dc(conn.dc)", "ready", "flush"] ∧
+    Facts.C30.connInitRegular = ["cfg<-server", "cfg=server", "ready", "flush"] := by
+  decide
 
 /-- A client whose primary DC is `p ≠ 0` only ever stores sessions of DC `p`, whatever arrives
 from other DCs and CDN DCs in whatever order (as long as the client is not told to migrate). -/
@@ -211,6 +248,16 @@ private def acts : List Act :=
 
 example : (crunI (cinit s2) acts).st.stored = some ⟨2, [1, 1], [1], 22, ""⟩ ∧
     (crunI (cinit s2) acts).st.session.dc = 4 := by decide
+
+/-- Connection layer: a session confirmed before the config is known is buffered and delivered
+with the config that arrives later; a foreign connection's session is delivered with ITS DC and
+ignored by the client. -/
+private def macts : List MAct :=
+  [.new false 2, .new false 4, .ev 1 ⟨k 4, zeroKey, 44⟩, .ev 0 ⟨k 1, k 7, 22⟩, .init 1 4, .init 0 2]
+
+example : deliveries [] macts =
+    [⟨.regular, 4, k 4, zeroKey, 44, .none⟩, ⟨.regular, 2, k 1, k 7, 22, .none⟩] := by decide
+example : (mrun (s2, []) macts).1.stored = some ⟨2, [7, 7], [7], 22, ""⟩ := by decide
 
 /-- `restore_refuses_mismatch` / `restore_of_saved` have satisfiable hypotheses (toy SHA-1 = first
 20 bytes): a consistent key is accepted, a flipped key id is refused. -/
